@@ -469,6 +469,19 @@ def tail_checks(case, rec, lens, spec, vig):
     again = np.stack([sg.x, sg.y, sg.z, sg.L, sg.M, sg.N, sg.opd, sg.intensity])
     rec.check('repeatable', np.array_equal(again, full, equal_nan=True), key='repeatable:after-unrelated-calls',
               msg='the same batch traced after unrelated trace/paraxial calls is not bit-identical')
+    # a Distribution object made and filled by the caller: its points are the ones traced and stay what they were, with
+    # num_rays left at its default and with num_rays given (every case: the history above only meets this call by chance)
+    from optiland.distribution import create_distribution as _cd
+    for variant in ('default-num_rays', 'explicit-num_rays'):
+        dd = _cd('hexapolar')
+        dd.generate_points(case['nr'] + 1)
+        x0_, y0_ = np.array(dd.x, float).copy(), np.array(dd.y, float).copy()
+        rr_ = lens.trace(0.0, Hy, wl, distribution=dd) if variant == 'default-num_rays' else lens.trace(0.0, Hy, wl, len(x0_) + 3, dd)
+        ok_ = bool(np.array_equal(np.asarray(dd.x, float), x0_) and np.array_equal(np.asarray(dd.y, float), y0_)
+                   and np.size(rr_.x) == x0_.size)
+        rec.check('arguments-unchanged', ok_, key='arguments-unchanged:distribution-instance',
+                  msg=f'Optic.trace(distribution=<Distribution object>, {variant}) changed the caller\'s pupil points or traced '
+                      f'{np.size(rr_.x)} rays for {x0_.size} points')
     # under a polarization state the returned intensities come from s/p frames built ray by ray: a ray's intensity is the
     # same in a bundle (which contains the undeviated axial ray) and alone
     if spec.get('polarization', 'ignore') != 'ignore':
@@ -476,13 +489,13 @@ def tail_checks(case, rec, lens, spec, vig):
         for Hq in (0.0, Hy):
             db = create_distribution('hexapolar')
             db.generate_points(2)
-            rb = lens.trace(0.0, Hq, wl, distribution=db)
+            rb = lens.trace(0.0, Hq, wl, 2, db)         # (num_rays is given although a ready-made object ignores it)
             ib = np.array(rb.i, float).copy()
             alone = []
             for q in range(len(db.x)):
                 d1 = create_distribution('hexapolar')
                 d1.x, d1.y = np.array([float(db.x[q])]), np.array([float(db.y[q])])
-                alone.append(float(np.ravel(lens.trace(0.0, Hq, wl, distribution=d1).i)[0]))
+                alone.append(float(np.ravel(lens.trace(0.0, Hq, wl, 1, d1).i)[0]))
             alone = np.array(alone)
             samef = np.array_equal(np.isfinite(ib), np.isfinite(alone))
             fin_ = np.isfinite(ib) & np.isfinite(alone)
